@@ -855,8 +855,19 @@ class Translator:
             return f'({self.E(a0, cx)} = {self.E(args[1], cx)})'
         if cls == 'record' and rd is not None:
             d = self.byid.get(rd['id'])
-            if d is not None:
+            if d is None or not self.has_body(d):
+                d2 = self.resolve_method(t0, nm, len(args) - 1, self.qt(self.skip(a0)))
+                if d2 is not None: d = d2
+            if d is not None and (self.has_body(d) or d.get('kind') == 'CXXMethodDecl'):
                 return self.call_function(d, self.addr_of(a0, cx), args[1:], cx)
+            if d is not None and d.get('kind') == 'FunctionDecl' and self.has_body(d):
+                return self.call_function(d, None, args, cx)
+            opn = {'operator==': 'eq', 'operator<': 'lt', 'operator!=': 'ne'}.get(nm)
+            if opn and t0.c in self.cfg.get('opaque_records', []):
+                cn = f'{t0.c}_{opn}'
+                if cn not in self.externs:
+                    self.externs[cn] = f'_Bool {cn}({t0.c} *a0, {t0.c} *a1{"".join(", " + g for g in self.ghost_decls())})'
+                return f'{cn}({", ".join([self.addr_of(x, cx) for x in args] + self.ghost_args())})'
         raise Unsupported(f'operator call {nm} on {t0} in {cx.cname}')
 
     def atomic_prefix(self, n):
@@ -933,6 +944,9 @@ class Translator:
             return self.make_shared(rt, args, n, cx)
         if rd is not None:
             d = self.byid.get(rd['id'])
+            if d is None or not self.has_body(d):
+                d2 = self.find_free_function(nm, rd.get('type', {}).get('qualType'))
+                if d2 is not None: d = d2
             if d is not None and d.get('kind') in ('FunctionDecl', 'CXXMethodDecl'):
                 # static member function or free function of eventpp
                 return self.call_function(d, None, args, cx)
@@ -952,6 +966,18 @@ class Translator:
                 self.externs[cn] = f'{rt.c} {cn}({", ".join(ps) or "void"})'
             return f'{cn}({", ".join(a + self.ghost_args())})'
         raise Unsupported(f'call to {nm} in {cx.cname}')
+
+    def find_free_function(self, name, qual):
+        """free function template instantiation by name and instantiated type (references across AST dumps)"""
+        if not hasattr(self, '_ffidx'):
+            self._ffidx = {}
+            def walk(n):
+                if isinstance(n, dict):
+                    if n.get('kind') == 'FunctionDecl' and self.has_body(n) and any(a.get('kind') == 'TemplateArgument' for a in n.get('inner', [])):
+                        self._ffidx.setdefault((n.get('name'), n.get('type', {}).get('qualType')), n)
+                    for c in n.get('inner', []): walk(c)
+            for d in self.docs: walk(d)
+        return self._ffidx.get((name, qual))
 
     def make_shared(self, rt, args, n, cx):
         rec = rt.elem
